@@ -8,7 +8,8 @@ package main
 //   * a snapshot id stays usable after rolling back to it; ids taken after it are invalidated;
 //   * Update / Commit are barriers: every outstanding snapshot is invalidated (the node snapshots
 //     and reverts only inside block execution, Update+Commit follow);
-//   * Commit is always preceded by Update (the op "commit" performs both);
+//   * Commit is always preceded by exactly one Update (the op "commit" performs Update unless one
+//     is pending); after "update" only "commit" or "reopen" (abandon) may follow;
 //   * per contract there is at most one storage object alive: either the one staged in the
 //     StateDB (handles opened later share it) or a single freshly opened, not yet staged handle;
 //   * a not-yet-staged handle is private scratch: it is not part of the working state; the
@@ -145,10 +146,10 @@ type model struct {
 	reverted  int // writes reverted so far (non-vacuity)
 	dropped   int // staged contracts dropped by block rollback
 	maxNest   int
-	sinceOpen int // ops since start / reopen (pruning of no-op sequences)
+	sinceOpen int      // ops since start / reopen (pruning of no-op sequences)
 	slog      []sEntry // surviving history (what the replay oracle executes), see shadow.go
 	applied   int      // prefix of slog already executed by the replay oracle
-	updated   bool // Update done, Commit pending: only commit / reopen may follow (see main.go, assumptions)
+	updated   bool     // Update done, Commit pending: only commit / reopen may follow (see main.go, assumptions)
 }
 
 // sEntry is one operation of the history "with the reverted writes erased".
